@@ -545,7 +545,11 @@ func (w *World) build(i int, in Inst) *Built {
 			}).Build()
 		}
 	case "cache":
-		cb := cachepolicy.Builder[int](w.Cache).WithKey(in.Key)
+		cb := cachepolicy.Builder[int](w.Cache)
+		if in.EarlierKey != "" {
+			cb.WithKey(in.EarlierKey)
+		}
+		cb.WithKey(in.Key)
 		for _, c := range in.Conds {
 			c := c
 			cb.CacheIf(func(v int, e error) bool { return c.Match(v, e) })
